@@ -363,6 +363,117 @@ async fn routing_and_faults(ctx: &Ctx, rng: &mut Rng, epmd: &net::EpmdTable, id:
     }
 }
 
+/// A recording process whose handler does not return before the gate is opened (a busy process).
+struct Gated {
+    open: Arc<std::sync::atomic::AtomicBool>,
+    per_message_delay_us: u64,
+    seen: Arc<Mutex<Vec<i128>>>,
+}
+
+impl Process for Gated {
+    async fn handle_message(&mut self, msg: Message) -> edp_node::Result<()> {
+        while !self.open.load(std::sync::atomic::Ordering::Acquire) {
+            tokio::time::sleep(Duration::from_millis(1)).await;
+        }
+        if self.per_message_delay_us > 0 {
+            tokio::time::sleep(Duration::from_micros(self.per_message_delay_us)).await;
+        }
+        if let Message::Regular { body, .. } = msg {
+            if let Val::Tuple(t) = val_of(&body) {
+                if let Some(Val::Int(i)) = t.get(1) {
+                    self.seen.lock().unwrap().push(i.to_i128().unwrap_or(-1));
+                }
+            }
+        }
+        Ok(())
+    }
+}
+
+/// The peer writes a burst of frames for one process that is busy (its handler does not return until the
+/// burst is on the wire) or slow; every frame must still be delivered, exactly once, and frames for other
+/// recipients and the connection must be unaffected.
+async fn burst(ctx: &Ctx, rng: &mut Rng, epmd: &net::EpmdTable, id: usize) {
+    let Some((w, mut peer)) = setup(ctx, epmd, id).await else { return };
+    let open = Arc::new(std::sync::atomic::AtomicBool::new(false));
+    let seen: Arc<Mutex<Vec<i128>>> = Default::default();
+    let gated = rng.bool();
+    let delay = if gated { 0 } else { *rng.pick(&[20u64, 200]) };
+    if !gated {
+        open.store(true, std::sync::atomic::Ordering::Release);
+    }
+    let busy = match w.node.spawn(Gated { open: open.clone(), per_message_delay_us: delay, seen: seen.clone() }).await {
+        Ok(p) => p,
+        Err(e) => {
+            ctx.inconclusive(&format!("spawn failed: {}", e));
+            return;
+        }
+    };
+    let by_name = rng.bool();
+    if by_name {
+        let _ = w.node.register(Atom::new("busy"), busy.clone()).await;
+    }
+    let n: usize = *rng.pick(&[150usize, 999, 1000, 1001, 1002, 1003, 1500, 2600]);
+    let remote = Val::Pid { node: w.peer_node.clone(), id: 9, serial: 1, creation: 2 };
+    ctx.class(&format!("burst/{}/{}/{}", if gated { "gated" } else { "slow" }, if by_name { "by-name" } else { "by-pid" }, n));
+    let mut frames: Vec<Vec<u8>> = Vec::new();
+    for i in 0..n {
+        let payload = Val::Tuple(vec![Val::atom("b"), Val::int(i as i128)]);
+        let control = if by_name && i % 2 == 0 {
+            Val::Tuple(vec![Val::int(6), remote.clone(), Val::atom(""), Val::atom("busy")])
+        } else {
+            Val::Tuple(vec![Val::int(2), Val::atom(""), pidval(&busy)])
+        };
+        frames.push(pt(&control, Some(&payload)));
+    }
+    // the peer writes from its own task: with a full mailbox the node may (rightly) stop reading for a while
+    let writer = tokio::spawn(async move {
+        let mut written = 0usize;
+        for f in &frames {
+            if peer.write_frame4(f).await.is_err() {
+                break;
+            }
+            written += 1;
+        }
+        (peer, written)
+    });
+    if gated {
+        // let the burst pile up before the process gets going
+        tokio::time::sleep(Duration::from_millis(*rng.pick(&[30u64, 150]))).await;
+        open.store(true, std::sync::atomic::Ordering::Release);
+    }
+    let (mut peer, written) = match tokio::time::timeout(Duration::from_secs(30), writer).await {
+        Ok(Ok(x)) => x,
+        _ => {
+            ctx.inconclusive("the scripted peer could not finish writing the burst within 30 s");
+            return;
+        }
+    };
+    let t0 = Instant::now();
+    while t0.elapsed() < Duration::from_secs(20) && seen.lock().unwrap().len() < written {
+        tokio::time::sleep(Duration::from_millis(5)).await;
+    }
+    tokio::time::sleep(Duration::from_millis(30)).await;
+    ctx.eval(written as u64);
+    let got = seen.lock().unwrap().clone();
+    let mut counts = vec![0u32; n];
+    for g in &got {
+        if *g >= 0 && (*g as usize) < n {
+            counts[*g as usize] += 1;
+        }
+    }
+    let lost: Vec<usize> = (0..written).filter(|i| counts[*i] == 0).collect();
+    let dup = counts.iter().filter(|c| **c > 1).count();
+    if !lost.is_empty() || dup > 0 {
+        ctx.viol(
+            if !lost.is_empty() { "C19:route:lost-under-load" } else { "C19:route:duplicated-under-load" },
+            "messages addressed to a live (busy) process were not each delivered exactly once",
+            json!({"scenario": id, "burst": n, "written_by_peer": written, "delivered": got.len(), "lost": lost.len(), "first_lost": lost.first(), "duplicated": dup, "gated": gated, "by_name": by_name}),
+        );
+    }
+    let _ = probe(ctx, &w, &mut peer, 777_000 + id as i128, "Burst", id).await;
+    ctx.count("burst_frames_delivered", got.len() as u64);
+}
+
 /// A quiet period longer than the node's read timeout, with the peer ticking, must be survived.
 async fn quiet_period(ctx: &Ctx, epmd: &net::EpmdTable, id: usize, periods: usize) {
     let Some((w, mut peer)) = setup(ctx, epmd, id).await else { return };
@@ -379,7 +490,7 @@ async fn quiet_period(ctx: &Ctx, epmd: &net::EpmdTable, id: usize, periods: usiz
 }
 
 pub fn run(ctx: &Ctx) {
-    ctx.rule("scenarios = scripted inbound histories over a real connection to a Node with three recording processes and one registered name: sends to pids and names, exit and monitor notifications, replies to outstanding remote calls, and after each fault (tick, undecodable body, wrong marker byte, control term that is not a tuple / empty tuple / unknown kind, unknown pid, unknown name, reply to an unknown call, truncated payload, link control) a probe message that must be delivered with the connection still registered; then the peer closes / ends the stream inside a frame / sends an over-long length and the connection must be deregistered within 5 s; plus quiet periods of 12.5 s (longer than the node's fixed 10 s read timeout) followed by a tick and a probe; evaluations = routed frames, probes and terminal checks judged; distinct = distinct (frame kind / fault kind / terminal kind) labels");
+    ctx.rule("scenarios = scripted inbound histories over a real connection to a Node with three recording processes and one registered name: sends to pids and names, exit and monitor notifications, replies to outstanding remote calls, and after each fault (tick, undecodable body, wrong marker byte, control term that is not a tuple / empty tuple / unknown kind, unknown pid, unknown name, reply to an unknown call, truncated payload, link control) a probe message that must be delivered with the connection still registered; then the peer closes / ends the stream inside a frame / sends an over-long length and the connection must be deregistered within 5 s; plus bursts of 150..2600 frames (around the 1000-slot mailbox) for a process whose handler is gated or slow, each of which must be delivered exactly once; plus quiet periods of 12.5 s (longer than the node's fixed 10 s read timeout) followed by a tick and a probe; evaluations = routed frames, probes and terminal checks judged; distinct = distinct (frame kind / fault kind / terminal kind) labels");
     ctx.assume("verdicts by delivery of the probe, not by timing; the quiet-period scenario runs concurrently with the others");
     let mut rng = Rng::derive(ctx.seed, 19, 1);
     let rt = tokio::runtime::Builder::new_multi_thread().worker_threads(8).enable_all().build().expect("runtime");
@@ -395,6 +506,9 @@ pub fn run(ctx: &Ctx) {
                 }
                 let terminal = [Terminal::Close, Terminal::EofInsideFrame, Terminal::OverLongLength][i % 3];
                 routing_and_faults(ctx, &mut rng, &epmd, i, terminal).await;
+                if i % 3 == 0 {
+                    burst(ctx, &mut rng, &epmd, 500_000 + i).await;
+                }
             }
         };
         tokio::join!(quiet, others);
